@@ -1326,3 +1326,70 @@ Inductive TreeSpec (o : opts) : list item -> list item -> Prop :=
 with ItemSpec (o : opts) : item -> item -> Prop :=
 | IS_tok t : ItemSpec o (Tok t) (Tok t)
 | IS_grp d its out : TreeSpec o its out -> ItemSpec o (Grp d its) (Grp d out).
+
+(* ------------------------------------------------------------------ *)
+(* P3 for the whole pipeline: the remaining normalisations of the closed list *)
+Inductive StepF (o : opts) (c : sctx) : list item -> list item -> Prop :=
+| SF_core a b : Step c a b -> StepF o c a b
+(* #[derive(A)] #[derive(B)]  =  #[derive(A, B)]  (in code, not among the raw tokens of a macro_rules body) *)
+| SF_merge_derives pre d1 a d2 b post :
+    c <> CMacro ->
+    StepF o c (pre ++ Tok s_hash :: Grp DBrack [Tok s_derive; Grp d1 a]
+                   :: Tok s_hash :: Grp DBrack [Tok s_derive; Grp d2 b] :: post)
+              (pre ++ Tok s_hash :: Grp DBrack [Tok s_derive;
+                        Grp DParen (a ++ (if nonempty a && nonempty b then [Tok s_comma] else []) ++ b)] :: post)
+(* ordering and merging of imports: consecutive use declarations and the canonical form of their import set, one
+   string per (attributes, visibility) class listing the sorted set of leaves (see flush_run_classes in Props.v);
+   two runs with the same canonical form are thereby equivalent *)
+| SF_import_regroup pre (sts : list run_entry) post :
+    c <> CMacro -> sts <> [] -> Forall (entry_kind RUse) sts ->
+    StepF o c (pre ++ concat (map snd sts) ++ post) (pre ++ flush_run o (Some (RUse, rev sts)) ++ post)
+(* ordering of module declarations / extern crate declarations: consecutive declarations and their sorted list *)
+| SF_reorder_items pre k (sts : list run_entry) post :
+    c <> CMacro -> k <> RUse -> sts <> [] -> Forall (entry_kind k) sts ->
+    StepF o c (pre ++ concat (map snd sts) ++ post) (pre ++ flush_run o (Some (k, rev sts)) ++ post).
+
+Inductive EquivF (o : opts) (c : sctx) : list item -> list item -> Prop :=
+| EF_refl a : EquivF o c a a
+| EF_sym a b : EquivF o c a b -> EquivF o c b a
+| EF_trans a b e : EquivF o c a b -> EquivF o c b e -> EquivF o c a e
+| EF_step a b : StepF o c a b -> EquivF o c a b
+| EF_nest pre d its its' post :
+    c <> CMacro -> macro_def_pos pre = false -> EquivF o (CIn d) its its' ->
+    EquivF o c (pre ++ Grp d its :: post) (pre ++ Grp d its' :: post)
+| EF_macro_body pre d its its' post :
+    c <> CMacro -> macro_def_pos pre = true -> EquivF o CMacro its its' ->
+    EquivF o c (pre ++ Grp d its :: post) (pre ++ Grp d its' :: post)
+| EF_macro_arm pre d1 m d2 body body' post :
+    c = CMacro ->
+    match lasto pre with None => true | Some p => is_tok p s_semi end = true ->
+    match post with [] => true | y :: _ => is_tok y s_semi end = true ->
+    EquivF o (CIn DBrace) body body' ->
+    EquivF o c (pre ++ Grp d1 m :: Tok s_fatarrow :: Grp d2 body :: post)
+               (pre ++ Grp d1 m :: Tok s_fatarrow :: Grp d2 body' :: post).
+
+(* merge_derives and reorder_runs also act inside the bodies of macro_rules definitions (matchers included), where
+   EquivF allows nothing of the kind; norm_sound therefore assumes that they leave those bodies alone.
+   P: the already transformed items before l, reversed (as the loops of the model see them) *)
+Section SafeLoop.
+Variable recsafe : item -> Prop.
+Variable f : item -> item.
+Fixpoint safe_loop (P : list item) (l : list item) : Prop :=
+  match l with
+  | [] => True
+  | x :: r =>
+      match x with
+      | Grp _ _ => if macro_rules_head P then f x = x else recsafe x
+      | Tok _ => True
+      end /\ safe_loop (f x :: P) r
+  end.
+End SafeLoop.
+Fixpoint msafe (f : item -> item) (x : item) : Prop :=
+  match x with
+  | Grp _ its => safe_loop (msafe f) f [] its
+  | Tok _ => True
+  end.
+Definition msafe_seq (f : item -> item) (seq : list item) : Prop := safe_loop (msafe f) f [] seq.
+Definition post_safe (o : opts) (ts : list tok) : Prop :=
+  (o_merge_derives o = true -> msafe_seq md_item (norm_core_items o ts)) /\
+  msafe_seq (norm_tree_item o) (post_core_items o ts).
